@@ -25,7 +25,7 @@ META = {
 }
 
 
-def _sd(names, alpha, tol, max_evl, seed, method="AM1", distort=0.05, converger=None, pad_to=None, coords=None):
+def _sd(names, alpha, tol, max_evl, seed, method="AM1", distort=0.05, converger=None, pad_to=None, coords=None, analytical=None):
     import torch
 
     import seqm.MolecularDynamics as MD
@@ -36,6 +36,8 @@ def _sd(names, alpha, tol, max_evl, seed, method="AM1", distort=0.05, converger=
     rng = np.random.default_rng(seed)
     x = x + (s > 0)[..., None] * rng.normal(size=x.shape) * distort
     sp = dict(method=method, scf_eps=1e-9, scf_converger=converger or [1], sp2=[False])
+    if analytical:
+        sp["analytical_gradient"] = list(analytical)
     mol = Molecule(Constants(), sp, torch.as_tensor(x.copy()), torch.as_tensor(s))
     opt = MD.Geometry_Optimization_SD(sp, alpha=alpha, force_tol=tol, max_evl=max_evl)
     rec = []
@@ -56,7 +58,7 @@ def _sd(names, alpha, tol, max_evl, seed, method="AM1", distort=0.05, converger=
 
 def probe_sd(inp: Dict[str, Any]) -> Dict[str, Any]:
     r = _sd(inp["names"], inp["alpha"], inp["tol"], inp["max_evl"], inp.get("seed", 0), method=inp.get("method", "AM1"), distort=inp.get("distort", 0.05),
-            converger=inp.get("converger"), pad_to=inp.get("pad_to"))
+            converger=inp.get("converger"), pad_to=inp.get("pad_to"), analytical=inp.get("analytical"))
     rec = r["rec"]
     bad: List[str] = []
     kinds = set()
@@ -115,7 +117,7 @@ def probe_batch_path(inp: Dict[str, Any]) -> Dict[str, Any]:
     for i, nm in enumerate(inp["names"]):
         x0 = esh.geom(nm)[1]
         xs.append(x0 + rng.normal(size=x0.shape) * (inp.get("distort_target", 0.0) if i == k else inp.get("distort_mates", 0.0)))
-    kw = dict(method=inp.get("method", "AM1"), converger=inp.get("converger"))
+    kw = dict(method=inp.get("method", "AM1"), converger=inp.get("converger"), analytical=inp.get("analytical"))
     a = _sd([inp["names"][k]], inp["alpha"], 0.0, inp["n"], 0, distort=0.0, coords=[xs[k]], **kw)
     b = _sd(inp["names"], inp["alpha"], 0.0, inp["n"], 0, distort=0.0, coords=xs, pad_to=inp.get("pad_to"), **kw)
     nat = len(esh.GEOMS[inp["names"][k]][0])
@@ -145,10 +147,17 @@ def gen_cases(ctx: Ctx):
         if len(names) > 1:
             c["pad_to"] = max(len(esh.GEOMS[v][0]) for v in names) + 1
         cases.append(("sd_run", c))
+    # the selectable force evaluators drive the optimiser too (descent needs force = -grad E for each of them); molecules with N/O-X and X-H pair types
+    for i, (names, an) in enumerate([(["hcn"], [True]), (["n2", "h2o"], [True, "numerical"]), (["ch2o"], [True]), (["co", "nh3"], [True])][: (4 if ctx.thorough else 2)]):
+        cases.append(("sd_run", {"names": names, "alpha": float(rng.choice([1e-3, 5e-3])), "tol": 0.05, "max_evl": int(rng.choice([6, 10])), "seed": int(rng.integers(0, 10**6)), "method": ["AM1", "PM3", "MNDO"][(i + ctx.seed) % 3],
+                                 "converger": [[1], [0, 0.2]][i % 2], "distort": 0.05, "analytical": an, "pad_to": (max(len(esh.GEOMS[v][0]) for v in names) if len(names) > 1 else None)}))
     # cap hit exactly at convergence (forced edge) and immediate convergence
     cases.append(("sd_run", {"names": ["h2o"], "alpha": 5e-3, "tol": 50.0, "max_evl": 1, "seed": 3}))
     cases.append(("sd_run", {"names": ["h2o"], "alpha": 5e-3, "tol": 50.0, "max_evl": 5, "seed": 3}))
     cases.append(("batch_path", {"names": ["h2o", "ch4"], "target": 0, "alpha": 5e-3, "n": 4, "seed": 1}))
+    # batch mates with the same number of orbitals but another heavy/hydrogen split
+    cases.append(("batch_path", {"names": [["co", "ch4"], ["ch4", "n2", "co"]][ctx.seed % 2], "target": 1 + int(rng.integers(0, 1 + ctx.seed % 2)), "alpha": 5e-3, "n": 3, "seed": int(rng.integers(0, 10**6)), "distort_target": 0.03, "distort_mates": 0.05,
+                                 "method": str(rng.choice(["AM1", "PM3", "MNDO"])), "converger": [[1], [0, 0.2]][int(rng.integers(0, 2))]}))
     # a batch mate far from equilibrium (forces of tens of eV/A) next to a mildly distorted target, large step factor
     cases.append(("batch_path", {"names": ["ch4", "h2o", "nh3"], "target": int(rng.integers(0, 3)), "alpha": 1e-2, "n": 4, "seed": int(rng.integers(0, 10**6)), "distort_target": 0.02, "distort_mates": 0.25,
                                  "method": str(rng.choice(["AM1", "PM3", "MNDO"])), "converger": [[1], [0, 0.2]][int(rng.integers(0, 2))], "pad_to": 6}))
